@@ -98,6 +98,32 @@ theorem specDigits_length (radix iv : Nat) (caps : Bool) (hr : 2 ≤ radix) (hiv
   rw [← e]
   simpa using h
 
+theorem specDigits_length_le (radix iv k : Nat) (caps : Bool) (hr : 2 ≤ radix) (hiv : iv < 2 ^ k) :
+    1 ≤ (specDigits radix iv caps).length ∧ (specDigits radix iv caps).length ≤ max k 1 := by
+  have h := digitsRev_length radix iv k hr hiv
+  have e := digitsRev_eq radix iv hr
+  unfold specDigits
+  rw [← e]
+  simpa using h
+
+/-- `render_digits` never panics (its `u16` addition) for a digit text of realistic length, and
+    produces sign, prefix, a computed run of zeros, the digits -/
+theorem renderDigits_ok (neg : Bool) (D : List Char) (P prec : Nat) (blank sign : Bool)
+    (pre : List Char) (pip : Bool) (hp : pre.length ≤ 2) (hD : D.length ≤ 4096) :
+    renderDigits neg D P prec blank sign pre pip =
+      .ok (signChars neg blank sign ++ pre ++
+        List.replicate
+          (max (P - (if neg || blank || sign then 1 else 0) - (if pip then 0 else pre.length)) prec
+            - ((if pip then pre.length else 0) + D.length)) '0'
+        ++ D) := by
+  unfold renderDigits
+  have hmod : D.length % (U16_MAX + 1) = D.length := Nat.mod_eq_of_lt (by unfold U16_MAX; omega)
+  rw [hmod]
+  have hno : ¬ ((if pip = true then pre.length else 0) + D.length > U16_MAX) := by
+    unfold U16_MAX; split <;> omega
+  simp only [hno, if_false]
+  rfl
+
 /-- `render_integer` never panics and produces sign, prefix, a computed run of zeros, digits -/
 theorem renderInteger_ok (neg : Bool) (iv P prec : Nat) (blank sign : Bool) (radix : Nat)
     (pre : List Char) (pip caps : Bool) (hr : 2 ≤ radix) (hp : pre.length ≤ 2) (hiv : iv < DBL_BOUND) :
@@ -111,17 +137,9 @@ theorem renderInteger_ok (neg : Bool) (iv P prec : Nat) (blank sign : Bool) (rad
   have e := digitsRev_eq radix iv hr
   have hD : (digitsRev radix iv).reverse.map (digitChar caps) = specDigits radix iv caps := by
     unfold specDigits; rw [← e]; rfl
-  have hlen : (digitsRev radix iv).length = (specDigits radix iv caps).length := by
-    rw [← hD]; simp
   unfold renderInteger
-  simp only [hD, hlen]
-  have hmod : (specDigits radix iv caps).length % (U16_MAX + 1) = (specDigits radix iv caps).length :=
-    Nat.mod_eq_of_lt (by unfold U16_MAX; omega)
-  rw [hmod]
-  have hno : ¬ ((if pip = true then pre.length else 0) + (specDigits radix iv caps).length > U16_MAX) := by
-    unfold U16_MAX; split <;> omega
-  simp only [hno, if_false]
-  rfl
+  rw [hD]
+  exact renderDigits_ok neg _ P prec blank sign pre pip hp (by omega)
 
 /-! ## zero/space filling arithmetic = the reference `fill` -/
 
